@@ -177,8 +177,9 @@ fn extraction_case(r: &mut Rng, enc_name: &str, rep: &[char]) -> Option<(String,
         loop {
             let n = 1 + r.usize_below(20);
             let s: String = (0..n).map(|_| *r.pick(rep)).collect();
-            let t = s.trim().to_string();
-            if !t.is_empty() {
+            // half of the texts keep the blanks they begin or end with: shown text is returned unchanged, blanks included
+            let t = if r.bool() { s.trim().to_string() } else { s.clone() };
+            if !t.trim().is_empty() {
                 return t;
             }
         }
@@ -213,18 +214,25 @@ fn extraction_case(r: &mut Rng, enc_name: &str, rep: &[char]) -> Option<(String,
         let cid = doc.add_object(st);
         let pid = doc.add_object(dictionary! { "Type" => "Page", "Parent" => pages_id, "Contents" => cid });
         kids.push(Object::Reference(pid));
-        expect.push(text);
+        expect.push((text, use_tj_array));
     }
     doc.objects.insert(pages_id, Object::Dictionary(dictionary! { "Type" => "Pages", "Kids" => kids, "Count" => n_pages as i64, "Resources" => res_id }));
     let cat = doc.add_object(dictionary! { "Type" => "Catalog", "Pages" => pages_id });
     doc.trailer.set("Root", cat);
     let check = |d: &Document, when: &str| -> Option<(String, String)> {
-        for (i, exp) in expect.iter().enumerate() {
+        for (i, (exp, tj_array)) in expect.iter().enumerate() {
             match crate::props::catch(|| d.extract_text(&[(i + 1) as u32])) {
                 Err(p) => return Some((format!("extract/{}/panic", enc_name), format!("extract_text panicked {}: {}", when, p))),
                 Ok(Err(e)) => return Some((format!("extract/{}/error", enc_name), format!("extract_text failed {}: {:?}", when, e))),
                 Ok(Ok(got)) => {
-                    if got.trim_end() != exp.trim_end() {
+                    // the extractor ends a text object with a line break (unless the text already ends in one) and
+                    // puts one blank after a TJ array; beyond these separators the text has to be exactly what is shown
+                    let mut accepted = vec![exp.clone(), format!("{}\n", exp)];
+                    if *tj_array {
+                        accepted.push(format!("{} ", exp));
+                        accepted.push(format!("{} \n", exp));
+                    }
+                    if !accepted.contains(&got) {
                         return Some((format!("extract/{}/text", enc_name), format!("page {} {}: extract_text returns {:?}, the page shows {:?}", i + 1, when, got, exp)));
                     }
                 }
@@ -318,7 +326,7 @@ pub fn run(cfg: &RunCfg) -> (PropMeta, ShardOut, Map<String, Value>) {
     });
     let meta = PropMeta {
         level: "exploration",
-        rule: "(a) every Unicode scalar value (1,112,064) as a one-character string through text_string -> decode_text_string with the representation rule checked, plus random strings (ASCII, C0 controls, BMP, astral, BOM characters, whole range), each also as UTF-8-with-BOM and UTF-16BE input; malformed inputs (odd length, lone surrogates, truncated UTF-8) must not panic. (b) the five one-byte encodings reachable through get_font_encoding x all 256 bytes: decode never fails, decode(encode(decode(b))) == decode(b), and the cells 0x20-0x7E / 0xA1-0xFF agree with the published WinAnsi (cp1252), MacRoman (Apple/Annex D) and PDFDoc (Annex D) tables. (c) generated documents whose pages show encode_text(enc, text) with Tj or TJ (literal or hex strings, optional compression): extract_text returns the text (modulo trailing white-space) before and after save_to + load_mem. distinct = distinct random strings / extraction documents.".into(),
+        rule: "(a) every Unicode scalar value (1,112,064) as a one-character string through text_string -> decode_text_string with the representation rule checked, plus random strings (ASCII, C0 controls, BMP, astral, BOM characters, whole range), each also as UTF-8-with-BOM and UTF-16BE input; malformed inputs (odd length, lone surrogates, truncated UTF-8) must not panic. (b) the five one-byte encodings reachable through get_font_encoding x all 256 bytes: decode never fails, decode(encode(decode(b))) == decode(b), and the cells 0x20-0x7E / 0xA1-0xFF agree with the published WinAnsi (cp1252), MacRoman (Apple/Annex D) and PDFDoc (Annex D) tables. (c) generated documents whose pages show encode_text(enc, text) with Tj or TJ (literal or hex strings, optional compression): extract_text returns the text - leading and trailing blanks included; only the line break that ends a text object and the blank after a TJ array are allowed in addition - before and after save_to + load_mem. distinct = distinct random strings / extraction documents.".into(),
         assumptions: vec![
             "published-table cells where Apple's MacRoman and Annex D differ (0xDB, 0xBD, 0xC6, 0xB5, 0xCA, 0xF0) and 0xAD accept either value or are skipped".into(),
             "extraction compares modulo trailing white-space (the extractor appends a space after TJ arrays and a newline at ET)".into(),
